@@ -741,7 +741,7 @@ def rows_for(types, as_union):
 
 
 def mk_inferred(chain, srows, split, base_forms, rec_form, order, copy, admitted, as_union, cons_form, ids,
-                filt=None, extra_base=None):
+                filt=None, extra_base=None, relative=None):
     """One program of the `inferred` family.  chain: types t0..tL; srows: rows of the step relation
     (already ordered, each [from, to]); split: None or the index at which the rows are divided over two
     step relations; base_forms: subset of {"atom","unit"}; rec_form: qs | sq | qss | mutual; order:
@@ -770,6 +770,11 @@ def mk_inferred(chain, srows, split, base_forms, rec_form, order, copy, admitted
         else:
             qrules.append({"head": [q, [V(0)]], "body": [["atom", w, [V(0)]]]})
             other.append({"head": [w, [V(0)]], "body": [["atom", q, [V(1)]], ["atom", name, [V(1), V(0)]]]})
+    if relative is not None:
+        # one more base clause whose type is above / below a chain type (alternatives that conform to each other)
+        g = nm(8)
+        decls[g] = {"arity": 1, "rows": [[relative]]}
+        qrules.append({"head": [q, [V(0)]], "body": [["atom", g, [V(0)]]]})
     qrules = [qrules[i] for i in order if i < len(qrules)]
     src = q
     undecl = {q: 1}
@@ -849,7 +854,7 @@ def gen_inferred(rng):
     split = rng.randrange(1, len(srows)) if rng.random() < 0.25 else None
     base_forms = rng.choice([["atom"], ["atom"], ["atom"], ["unit"], ["atom", "unit"]])
     rec_form = rng.choice(["qs", "qs", "sq", "qss", "mutual"])
-    order = list(range(6))
+    order = list(range(7))
     rng.shuffle(order)
     r = rng.random()
     if r < 0.35:
@@ -870,9 +875,15 @@ def gen_inferred(rng):
     if cons_form == "filter" and rng.random() < 0.6:
         filt = T.dedup(filt + admitted[:1])
     extra_base = rng.choice(chain[1:]) if rng.random() < 0.12 else None
-    ids = rng.sample(range(40), 8)
+    relative = None
+    if rng.random() < 0.2:
+        names = [t for t in chain if t[0] == "c" and t[1] in ("/a", "/b", "/c")]
+        relative = rng.choice([T.NAME, T.tc(names[0][1] + "/b"), T.ANY] if names else [T.ANY, T.NAME])
+        if d == L and rng.random() < 0.5:
+            admitted = admitted + [relative]
+    ids = rng.sample(range(40), 9)
     prog = mk_inferred(chain, srows, split, base_forms, rec_form, order, rng.random() < 0.25, admitted,
-                       rng.random() < 0.3, cons_form, ids, filt, extra_base)
+                       rng.random() < 0.3 and relative is None, cons_form, ids, filt, extra_base, relative)
     prog["stream"] = "inferred"
     return prog
 
